@@ -315,6 +315,15 @@ def position_cases():
     for k, b in bodies.items():
         last = first + b.rstrip("\n").count("\n") - (1 if k == "runtime" else 0)
         out.append(("position:" + k, pre + b + "cl.client_dgram(\"after\");\n", (first, last)))
+    # the same statements beyond line 65536 and beyond line 2^17 of a long (machine-written) script, and a lexical and a
+    # syntax error there: line numbers do not wrap
+    for pad in (65531, 131080):
+        far = pre + "\n" * pad
+        first = far.count("\n") + 1
+        bodies2 = dict(bodies, lex="cl.client_dgram(\n  \"x\" $\n);\n", parse="cl.client_dgram(\n  \"x\" =\n);\n")
+        for k, b in bodies2.items():
+            last = first + b.rstrip("\n").count("\n") - (1 if k == "runtime" else 0)
+            out.append(("position-far:%s:%d" % (k, pad), far + b + "cl.client_dgram(\"after\");\n", (first, last)))
     return out
 
 
